@@ -654,7 +654,7 @@ impl<'e> Lower<'e> {
                 let is_enum = if let Named(n) = &st { self.env.enums.contains_key(n) } else { false };
                 if let Named(_) = &st { if !is_enum { return Err("match on struct".into()); } }
                 let key_of = |this: &Self, p: &Pat| -> Option<i128> { match p { Pat::Lit(l) => this.lit_int(&Expr::Lit(ExprLit { attrs: vec![], lit: l.lit.clone() })), Pat::Path(pp) => { if let Named(n) = &st { this.env.enums.get(n)?.iter().position(|v| *v == path_last(&pp.path)).map(|i| i as i128) } else { None } } Pat::Tuple(t) => { let mut k = 0i128; for e in &t.elems { if let Pat::Lit(l) = e { k = k * 16 + this.lit_int(&Expr::Lit(ExprLit { attrs: vec![], lit: l.lit.clone() }))?; } else { return None; } } Some(k) } _ => None } };
-                let scrut = if let Tuple(ts) = &st { let slot = self.next; let mut acc = prim("PCastII USize I64", vec![proj(0, Ir::Var(slot))]); for i in 1..ts.len() { acc = prim("PI2 I64 IAdd", vec![prim("PI2 I64 IMul", vec![acc, Ir::LitI("i64", 16)]), prim("PCastII USize I64", vec![proj(i, Ir::Var(slot))])]); } Ir::Block(vec![St::Let(se)], Box::new(acc)) } else { se };
+                let scrut = if let Tuple(ts) = &st { let slot = self.next; let acc = prim("PKey", (0..ts.len()).map(|i| proj(i, Ir::Var(slot))).collect()); Ir::Block(vec![St::Let(se)], Box::new(acc)) } else { se };
                 let mut arms = vec![]; let mut dflt = None; let mut rt = Never;
                 for arm in &m.arms { let (t, body) = self.ex(&arm.body, expected)?; if matches!(rt, Never | IntLit | FloatLit | Unknown(_)) { rt = t; } match &arm.pat { Pat::Wild(_) => dflt = Some(body), p => { let k = key_of(self, p).ok_or(format!("match pattern {}", p.to_token_stream()))?; arms.push((k, body)); } } }
                 let dflt = match dflt { Some(d) => d, None => if is_enum { Ir::Panic } else { return Err("non-exhaustive int match".into()) } };
